@@ -51,6 +51,9 @@ def table(name, alpha="exact", late=True):
         b = [x * 0.987 + 0.013 for x in b]
         c = [x * 1.1 + 0.003 for x in c]
         d = [x * 0.93 + 0.11 for x in d]
+    if alpha == "const":
+        # prices that never move: every trade comes from the targets alone
+        a, b, c, d = [8.0] * n, [4.0] * n, [16.0] * n, [6.0] * n
     df = pd.DataFrame({"a": a, "b": b, "c": c, "d": d}, index=idx, dtype=float)
     if late:
         k = 2 if n <= 6 else 5
@@ -290,7 +293,7 @@ def additional(idx, spec, data):
     # dated target weights: only every other date, c only once listed
     rows = {}
     for i in range(0, n, 2):
-        w = {"a": 0.25 + 0.125 * (i % 3), "b": 0.25, "c": np.nan if np.isnan(data["c"].iloc[i]) else 0.125}
+        w = {"a": 0.25 + 0.125 * (i % 3), "b": 0.25, "c": 0.125 if data["c"].iloc[i] > 0 else np.nan}
         rows[idx[i]] = w
     wt = pd.DataFrame(rows).T
     # a statistic that is only published every third date (e.g. weekly scores on daily data)
@@ -397,6 +400,13 @@ def build(spec):
         s11 = bt.Strategy("s11", stack(st, idx), ["a", "b"])
         s1 = bt.Strategy("s1", [A.RunWeekly(), A.WeighSpecified(s11=0.75, d=0.25), A.Rebalance()], [s11, "d"])
         s = bt.Strategy("r", [A.RunMonthly(), A.WeighSpecified(s1=0.75), A.Rebalance()], [s1])
+    elif tree == "deep_dup":
+        # two branches with identically named sub-strategies that share a ticker
+        m1 = bt.Strategy("mom", stack(st, idx), ["a", "b"])
+        m2 = bt.Strategy("mom", [A.RunWeekly(), A.SelectThese(["a", "d"]), A.WeighSpecified(a=0.25, d=0.5), A.Rebalance()], ["a", "d"])
+        eq = bt.Strategy("eq", [A.RunWeekly(), A.WeighSpecified(mom=0.75), A.Rebalance()], [m1])
+        cr = bt.Strategy("cr", [A.RunWeekly(), A.WeighSpecified(mom=0.5), A.Rebalance()], [m2])
+        s = bt.Strategy("r", [A.RunMonthly(), A.WeighSpecified(eq=0.5, cr=0.25), A.Rebalance()], [eq, cr])
     elif tree == "fi_hedge":
         kids = [bt.FixedIncomeSecurity("a"), bt.CouponPayingSecurity("b"), bt.HedgeSecurity("d", multiplier=spec.get("mult_d", 1))]
         w = spec.get("fi_weights", {"a": 0.5, "b": 0.5})
@@ -572,6 +582,13 @@ def family(tier, seed, nested_full=False):
             sp = {"tree": tree, "stack": st, "data": data, "alpha": alpha, "integer": integer, "capital": capital, "rng": seed % 4}
             sp.update(cost)
             specs.append(sp)
+    # a very large book on constant prices whose targets drift by millionths: every trade is tiny
+    # relative to the position it changes
+    for cost in (COSTS[4], COSTS[1], COSTS[3]):
+        for tree in ("flat_eager", "nested"):
+            sp = {"tree": tree, "stack": dict(BASE, weigh="target_drift"), "data": "d12", "alpha": "const", "integer": False, "capital": 1e8, "rng": 0}
+            sp.update(cost)
+            specs.append(sp)
     return specs
 
 
@@ -579,10 +596,21 @@ def family(tier, seed, nested_full=False):
 # observation of a finished run
 
 
+def node_path(n):
+    """the driver's own walk to the root (not the node's full_name attribute)"""
+    names = [n.name]
+    while n.parent is not n:
+        n = n.parent
+        names.append(n.name)
+    return ">".join(reversed(names))
+
+
 def run_histories(b):
     """{full_name: {series: (labels, values)}} of every node of a finished backtest"""
     bt = rt.bt()
     out = {}
+
+    path = node_path
     for n in b.strategy.members:
         d = {}
         if isinstance(n, bt.core.StrategyBase):
@@ -598,7 +626,7 @@ def run_histories(b):
             d[s] = ([str(x) for x in ser.index], [float(x) for x in ser.values])
         d["__mult__"] = float(getattr(n, "multiplier", 1.0))
         d["__kind__"] = "S" if isinstance(n, bt.core.StrategyBase) else "X"
-        d["__parent__"] = n.parent.full_name if n.parent is not n else None
+        d["__parent__"] = path(n.parent) if n.parent is not n else None
         d["__fi__"] = bool(n.fixed_income)
-        out[n.full_name] = d
+        out[path(n)] = d
     return out
